@@ -302,6 +302,19 @@ def unit_prefix(number, unit="", precision=3, char_between="", as_tuple=False) -
     return "".join(f"{v}" for v in res)
 
 
+def get_style_label(obj):
+    """Returns the style label of an object (or None) without creating the lazily
+    created style object: only reading the label must not change the object."""
+    # pylint: disable=protected-access
+    style = getattr(obj, "_style", None)
+    if style is not None:
+        return getattr(style, "label", None)
+    style_kwargs = getattr(obj, "_style_kwargs", None)
+    if isinstance(style_kwargs, dict):
+        return style_kwargs.get("label", None)
+    return None
+
+
 def add_iteration_suffix(name):
     """
     adds iteration suffix. If name already ends with an integer it will continue iteration
